@@ -513,7 +513,7 @@ pub fn c12(case: &Case) -> Verdict {
         for i in infos.iter().filter(|i| i.kind == Kind::Tl && i.parent.is_some()) {
             let n = evs.iter().filter(|e| e.uid == i.uid && e.k == EvK::Enter).count();
             if n != exp[i.uid] {
-                return Fails(format!("{} (registered on a builder passed to add_batch) ran {} times in one dispatch, {} inner dispatches were made", nm(i), n, exp[i.uid]));
+                return Fails(format!("{} (registered on an inner builder: a batch or a nested dispatcher) ran {} times in one dispatch, {} expected", nm(i), n, exp[i.uid]));
             }
         }
     }
